@@ -790,6 +790,10 @@ def many_bins(ck):
                 ck.fail("measures/many-bins-raises/%s" % name, "%s on a %s histogram raised %s: %s" % (name, shape, type(e).__name__, e), replay)
                 continue
             want = textbook_float(name, H)
+            if not math.isfinite(v):
+                ck.fail("measures/%s/many-bins" % name, "%s on a %dx%d histogram returned %r (textbook %r)" % (name, shape[0], shape[1], v, want),
+                        dict(replay, measure=name, value=repr(v), textbook=want))
+                continue
             if want is not None and abs(v - want) > 1e-7 * max(1.0, abs(want)):
                 ck.fail("measures/%s/many-bins" % name,
                         "%s on a %dx%d histogram with mass in bins above 255: %r, textbook value %r" % (name, shape[0], shape[1], v, want),
@@ -806,10 +810,10 @@ def many_bins(ck):
             Hq = [frac(x) for x in H.ravel()]
             vcc = float(sm.similarity_measures["cc"](shape, False, None)(H.copy()))
             vcr = float(sm.similarity_measures["cr"](shape, False, None)(H.copy()))
-            if cc_def(Hq, shape[0], shape[1]) is not None:
+            if cc_def(Hq, shape[0], shape[1]) is not None and math.isfinite(vcc):
                 terms.append("qclose (1 # 10000000) (cc_rho2 %s %s %s) %s" % (cnat(shape[0]), cnat(shape[1]), cql(Hq), cq(frac(vcc))))
                 meta.append(("cc", replay))
-            if cr_def(Hq, shape[0], shape[1]) is not None:
+            if cr_def(Hq, shape[0], shape[1]) is not None and math.isfinite(vcr):
                 terms.append("qclose (1 # 10000000) (cr_eta2 %s %s %s %s) %s" % (cq(TINY), cnat(shape[0]), cnat(shape[1]), cql(Hq), cq(frac(vcr))))
                 meta.append(("cr", replay))
     # registration level: more than 256 bins requested, unequal from_bins / to_bins in both orders
@@ -840,7 +844,7 @@ def many_bins(ck):
         if not np.array_equal(H, Hd):
             ck.fail("eval/differs-from-definition/many-bins", "joint histogram with %dx%d bins differs from the definition" % (fb, tb), replay)
         want = textbook_float(sim, H)
-        if want is not None and abs(val - want) > 1e-7 * max(1.0, abs(want)):
+        if not math.isfinite(val) or (want is not None and abs(val - want) > 1e-7 * max(1.0, abs(want))):
             ck.fail("measures/%s/many-bins" % sim, "eval with from_bins=%d, to_bins=%d returned %r, textbook %s of its own histogram is %r" % (fb, tb, val, sim, want),
                     dict(replay, value=val, textbook=want))
     if ck.build is not None and ck.build.ok:
